@@ -635,7 +635,11 @@ def pattern_consti32(context, tree):
 
 
 @rvcisa.pattern(
-    "reg", "CONSTI32", size=3, condition=lambda t: t.value < 0x20000
+    "reg",
+    "CONSTI32",
+    size=3,
+    condition=lambda t: -0x20800 <= t.value < 0x1F800
+    and not -0x800 <= t.value < 0x800,
 )
 def pattern_consti32_2(context, tree):
     d = context.new_reg(RiscvRegister)
